@@ -660,9 +660,20 @@ def _extract_constant_impl(expr: Expression) -> float:
     if isinstance(expr, Variable):
         return 0.0
 
-    # Vector expressions have no constant term (purely linear)
+    # Vector expressions over plain variables have no constant term (purely
+    # linear); over element expressions (e.g. c @ (x + 1)) each element
+    # contributes its own constant, weighted by its coefficient.
     if isinstance(expr, (LinearCombination, VectorSum)):
-        return 0.0
+        elements = getattr(expr.vector, "_expressions", None)
+        if elements is None:
+            return 0.0
+        if isinstance(expr, LinearCombination):
+            weights = [float(c) for c in expr.coefficients]
+        else:
+            weights = [1.0] * len(elements)
+        return float(
+            sum(w * _extract_constant_impl(e) for w, e in zip(weights, elements))
+        )
 
     if isinstance(expr, BinaryOp):
         if expr.op == "+":
